@@ -896,3 +896,20 @@ def r04_16(ctx):
                       detail="option stored by subject_to and never read: the constraint is imposed at the %s point although the user excluded it" % ("first" if opt == "include_first" else "last"),
                       expected="args['%s'] consulted (skip the point) or a False value rejected" % opt, found="options read: %s" % sorted(k for k in keys if k in ("include_first", "include_last", "scale", "refine", "group_refine")), fi=root,
                       sample={"method": cname, "options_read": sorted(keys)})
+
+
+@rule("R04.17", min_instances=1, desc="SplineMethod lumps path constraints into one evaluation per group: constraints with different next/prev offsets must not share a group (the offset window of one would cut instances of the other)")
+def r04_17(ctx):
+    P = ctx.prog
+    f = P.own_method("SplineMethod", "add_constraints_noninf")
+    sc = ctx.scope(f)
+    keys = [d for d in sc.defs.get("key", []) if d.kind == "assign" and sc.enclosing_loops(d.stmt)]
+    ok = len(keys) == 1 and isinstance(keys[0].value, ast.Tuple)
+    found = ast.unparse(keys[0].value) if keys else "no lump key"
+    if ok:
+        n = Norm(sc)
+        parts = [ast.unparse(e) for e in keys[0].value.elts]
+        expanded = " ".join(n.key(e) for e in keys[0].value.elts)
+        ok = "_offsets" in expanded
+    ctx.check(ok, "SplineMethod.add_constraints_noninf groups constraints by their offsets too", detail="a plain constraint lumped with one that uses next()/prev() loses the instances outside the other's offset window (e.g. the final node)",
+              expected="key = (refine, group_refine, include_first, include_last, <offsets used by c>)", found=found, fi=f, sample={"key": found})
